@@ -593,9 +593,9 @@ impl<K: KeyT, V: ValT> MapRunner<K, V> {
                 }
                 expect = Some(yielded.join(","));
             }
-            ("drain", 2) | ("into_iter", 1) => {
+            ("drain", 2) | ("into_iter", 1) | ("drain_fold", 1) | ("into_iter_fold", 1) => {
                 let got: Vec<&str> = if ret.is_empty() { vec![] } else { ret.split(',').collect() };
-                let want = std::cmp::min(n(0) as usize, r.len());
+                let want = if name.ends_with("_fold") && n(0) == 0 { r.len() } else { std::cmp::min(n(0) as usize, r.len()) };
                 if got.len() != want {
                     return Some(format!("{} yielded {} elements, expected {}", name, got.len(), want));
                 }
@@ -827,7 +827,7 @@ impl<K: KeyT, V: ValT> MapRunner<K, V> {
                     return Some("clear changed the allocation".into());
                 }
             }
-            ("drain", 2) if a[1] == "0" && !ret.starts_with("panic") => {
+            ("drain", 2) | ("drain_fold", 1) if (a.len() == 1 || a[1] == "0") && !ret.starts_with("panic") => {
                 if asz != *basz || len != 0 {
                     return Some("drain did not leave an empty collection with its allocation".into());
                 }
@@ -947,6 +947,34 @@ impl<K: KeyT, V: ValT> MapRunner<K, V> {
                     check_exact(&d, total - out.len());
                     if n(1) == 1 {
                         std::mem::forget(d);
+                    }
+                }
+                quiet();
+                out.iter().map(|(k, v)| fmt_kv(k, v)).collect::<Vec<_>>().join(",")
+            }
+            // owning iterators consumed through `fold` (for_each) by a consumer that stops by panicking at the
+            // n-th element (0 = runs to completion): the rest is dropped while unwinding
+            ("drain_fold", 1) | ("into_iter_fold", 1) => {
+                let out = &mut self.stash;
+                let stop = n(0) as usize;
+                let r = std::panic::catch_unwind(std::panic::AssertUnwindSafe(|| {
+                    let eat = |x: (K, V)| {
+                        out.push(x);
+                        if out.len() == stop {
+                            std::panic::panic_any(tape::TapePanic("consumer"));
+                        }
+                    };
+                    if name == "drain_fold" {
+                        m.drain().for_each(eat);
+                    } else {
+                        let old = std::mem::replace(m, new_map());
+                        old.into_iter().for_each(eat);
+                    }
+                }));
+                if let Err(p) = r {
+                    match p.downcast_ref::<tape::TapePanic>() {
+                        Some(tp) if tp.0 == "consumer" => {}
+                        _ => std::panic::resume_unwind(p),
                     }
                 }
                 quiet();
